@@ -385,7 +385,7 @@ class AnnotationCollection(AbstractFeatureIntervalCollection):
                 else:
                     # seq_to_parent uses slightly different kwargs, unfortunately
                     fn = seq_to_parent
-                    parent_dict["seq_id"] = parent_dict["sequence_name"]
+                    parent_dict["seq_id"] = parent_dict.get("sequence_name")
                     # remove incorrectly named or invalid parameters
                     parent_dict = {
                         k: v
